@@ -1709,6 +1709,106 @@ func runDBHist(t *tr.W, r *rand.Rand, variant int) {
 	}
 }
 
+
+// runRollbackHist: scripted histories around the filter-HEADER store (the real
+// headerfs store; FetchHeaderAncestors is the only source of the headers a response
+// is verified against).  (1) A network fetch whose range reaches the tip and starts
+// below the coming fork height h, the filter of block h itself not delivered (so that
+// neither the cache nor the database can answer for it later); (2) the real store is
+// rolled back to h-1 and other headers are committed from h on (re-org depth 1..8);
+// (3) right away - the telling call first - the un-batched (or short reverse batch)
+// fetch of block h, answered first with the filter that matched the header committed
+// BEFORE the roll back, then with the one matching the header committed now.  The
+// oracle is the usual one: the returned / cached / persisted filter hash-chains to the
+// header the store returns by height NOW (FetchHeaderByHeight, never FetchHeaderAncestors).
+func runRollbackHist(t *tr.W, r *rand.Rand, variant int) {
+	cap := uint64(3000 + r.Intn(3000))
+	persist := r.Intn(2) == 0
+	w := newWorld(r, cap, persist)
+	u := w.u
+	defer func() {
+		w.close()
+		u.setFilterHeaders(uniBlocks-40, u.truH[uniBlocks-40:])
+	}()
+	t.Case("cf cap %d persist %s tip %d ftip %d maxrange %d", cap, b01(persist), uniBlocks, u.ftip, wire.MaxGetCFiltersReqRange)
+	t.Hit(fmt.Sprintf("cf.rbhist.variant%d", variant))
+	depth := 1 + r.Intn(8)
+	h := uniBlocks - depth + 1 // the lowest height whose header is replaced
+	lo := h - 1 - r.Intn(2)
+	drop := func(x int) bool { return x == h }
+	// (1) the range [lo, tip] from the network, block h's filter never arrives
+	var obs string
+	if r.Intn(2) == 0 && h < uniBlocks {
+		obs = w.honestGet(t, uniBlocks, "r", int64(uniBlocks-lo+1), drop, "nil")
+		t.Hit("cf.rbhist.first.reverse-from-tip")
+	} else {
+		obs = w.honestGet(t, lo, "f", int64(uniBlocks-lo+1+r.Intn(3)), drop, "nil")
+		t.Hit("cf.rbhist.first.forward-to-tip")
+	}
+	if strings.HasPrefix(obs, "HANG") || strings.HasPrefix(obs, "PANIC") {
+		return
+	}
+	// (2) roll back to h-1, commit other headers from h on (the first one always differs)
+	n := depth - r.Intn(2)*r.Intn(depth)
+	if n < 1 {
+		n = 1
+	}
+	var hdrs []chainhash.Hash
+	var ids []string
+	prev := u.cur[h-1]
+	for i := 0; i < n; i++ {
+		f := u.truF[h+i]
+		if i == 0 || r.Intn(2) == 0 {
+			f = u.altF[h+i]
+		}
+		x, err := builder.MakeHeaderForFilter(f, prev)
+		if err != nil {
+			panic(err)
+		}
+		hdrs = append(hdrs, x)
+		ids = append(ids, strconv.Itoa(w.hdrID(x)))
+		prev = x
+	}
+	u.setFilterHeaders(h, hdrs)
+	t.Op(fmt.Sprintf("recommit %d [%s]", h, strings.Join(ids, " ")), "ok")
+	t.Hit("cf.op.rollback-recommit")
+	// (3) block h: the filter of the replaced header first, then the one committed now
+	call := func(target int, batch string, maxBatch int64, resps []resp) string {
+		toks := make([]string, len(resps))
+		for i, rp := range resps {
+			toks[i] = rp.tok + ":1"
+		}
+		o := w.get(t, target, u.hashes[target], true, batch, maxBatch, false, "nil", resps)
+		t.Op(fmt.Sprintf("get %d 1 %s %d 0 nil [%s]", target, batch, maxBatch, strings.Join(toks, " ")), o)
+		return o
+	}
+	stale := func(x int) resp { return w.mkCF(t, wire.GCSFilterRegular, u.hashes[x], nbytes(u.truF[x]), "stale-after-rollback") }
+	good := func(x int) resp { return w.mkCF(t, wire.GCSFilterRegular, u.hashes[x], nbytes(u.altF[x]), "good") }
+	switch variant {
+	case 0:
+		obs = call(h, "n", 0, []resp{stale(h), good(h)})
+	case 1:
+		obs = call(h, "n", 0, []resp{stale(h)})
+		if !strings.HasPrefix(obs, "HANG") && !strings.HasPrefix(obs, "PANIC") {
+			obs = call(h, "n", 0, []resp{good(h)})
+		}
+	default:
+		pre := w.mkCF(t, wire.GCSFilterRegular, u.hashes[h-1], nbytes(u.truF[h-1]), "good")
+		obs = call(h, "r", 2, []resp{stale(h), pre, good(h)})
+	}
+	if strings.HasPrefix(obs, "HANG") || strings.HasPrefix(obs, "PANIC") {
+		return
+	}
+	if strings.HasPrefix(obs, "ret:") && !strings.Contains(obs, " rg - ") {
+		t.Hit("cf.rbhist.fork-height-from-network")
+	}
+	// ask again what was asked before, and walk on over the re-committed blocks
+	w.honestGet(t, h, "n", 0, nil, "nil")
+	for x := h + 1; x <= u.ftip && x <= h+2; x++ {
+		w.honestGet(t, x, "n", 0, nil, "nil")
+	}
+}
+
 func init() {
 	tr.Register("filter", func(t *tr.W, thorough bool) {
 		r := tr.Rng(5)
@@ -1736,6 +1836,11 @@ func init() {
 		rh := tr.Rng(505)
 		for i := 0; i < n/8; i++ {
 			runDBHist(t, rh, i%3)
+		}
+		// scripted roll-back histories of the real filter-header store
+		rb := tr.Rng(515)
+		for i := 0; i < n/20; i++ {
+			runRollbackHist(t, rb, i%3)
 		}
 		if uni != nil { // the universe may live on /dev/shm, which bin/check does not clean
 			uni.db.Close()
